@@ -120,7 +120,11 @@ Theorem e2e_channel_pcm wo ch total w chunks f :
   N.of_nat (length (hd [] all)) < 2 ^ 36 ->
   exists blocks,
     CS.dec_stream (f_stream f) = Some (conv_si (f_si f), map CS.interleave_frame blocks, CS.EndEof) /\
-    stack blocks (repeat [] (N.to_nat ch)) = all.
+    stack blocks (repeat [] (N.to_nat ch)) = all /\
+    (* the blocks themselves, for the readers area *)
+    Forall (EP.block_ok (conv_si (f_si f)) bps) blocks /\ EP.short_only_last (conv_si (f_si f)) blocks /\
+    FlacCodec.Ast.si_total (conv_si (f_si f)) = EP.blocks_samples blocks /\
+    FlacCodec.Ast.si_channels (conv_si (f_si f)) = ch /\ EP.blocks_samples blocks < 2 ^ 36.
 Proof.
   intros Hwf Hnew Hchunks Hrun all Hfits Hlen36.
   pose proof (channel_new_wf p [] wo rate bps ch total w Hwf Hnew) as Hcw.
@@ -229,11 +233,13 @@ Proof.
   assert (H3664 : 2 ^ 36 < 2 ^ 64) by (apply N.pow_lt_mono_r; lia).
   assert (Hcnt : N.of_nat (length (blocks ++ lastbl)) <= N.of_nat m).
   { rewrite app_length, Elast. destruct (Nat.eqb_spec r 0); cbn [length]; nia. }
-  destruct (e2e_encoder o L md5 md5_length p rate bps wo ch t e0 (blocks ++ lastbl) e2 f He0 Hr Hfin Hok) as [Hdec _].
+  assert (Hshape : EP.short_only_last si (blocks ++ lastbl)).
   { apply short_only_last_app; [exact H14|]. rewrite Elast. destruct (r =? 0)%nat; cbn; lia. }
+  destruct (e2e_encoder o L md5 md5_length p rate bps wo ch t e0 (blocks ++ lastbl) e2 f He0 Hr Hfin Hok Hshape) as [Hdec Htot].
   { unfold FlacCodec.Header.MAX_FRAME_NUMBER. change (2 ^ 36 - 1 + 1) with (2 ^ 36). lia. }
   { lia. }
   exists (blocks ++ lastbl). split; [exact Hdec|].
+  split; [|split; [exact Hok|split; [exact Hshape|split; [exact Htot|split; [exact Ssc|lia]]]]].
   rewrite stack_app. rewrite Est. f_equal. rewrite Elast.
   destruct (Nat.eqb_spec r 0) as [E0|].
   - cbn [stack fold_right]. rewrite E0 in Urest. rewrite <- Lrest. symmetry. apply all_nil. exact Urest.
